@@ -90,7 +90,14 @@ def _safe(name, kind, f):
 
 def _two_runs(build, origin, d, what=""):
     o2 = (origin[0] + d[0], origin[1] + d[1])
-    return _compare(build(tuple(origin), (0.0, 0.0)), build(o2, tuple(d)), d, what)
+    r0 = build(tuple(origin), (0.0, 0.0))
+    msg = _compare(r0, build(o2, tuple(d)), d, what)
+    if msg is None and all(float(v) == int(v) for v in origin):
+        # the same origin written with Python ints ((0, 0) instead of (0.0, 0.0)): same position, another numeric type -- every result
+        # must be the one of the float-typed run (a buffer that inherits an integer dtype from the origin / centre truncates silently)
+        oi = (int(origin[0]), int(origin[1]))
+        msg = _compare(r0, build(oi, (0, 0)), (0.0, 0.0), what + "[origin given as Python ints %r] " % (oi,))
+    return msg
 
 
 def _grid_of(mask_obj):
@@ -319,7 +326,7 @@ def array_zoomed(mask, pixel_scales, origin, d):
 
 def _gen_radial(rng, tier):
     for c in _gen_masks(rng, tier, 4, 6, 150, 3000, hmin=2, wmin=2):
-        yield dict(c, centre_frac=(round(rng.uniform(-0.45, 0.45), 3), round(rng.uniform(-0.45, 0.45), 3)),
+        yield dict(c, centre_frac=((0.0, 0.0) if rng.random() < 0.25 else (round(rng.uniform(-0.45, 0.45), 3), round(rng.uniform(-0.45, 0.45), 3))),
                    angle=rng.choice([0.0, 30.0, 90.0, 211.0]), remove_centre=bool(rng.getrandbits(1)))
 
 
@@ -343,7 +350,7 @@ def radial_projected(mask, pixel_scales, origin, d, centre_frac, angle, remove_c
     def build(o, shift):
         mk = aa.Mask2D(mask=mask.copy(), pixel_scales=pixel_scales, origin=o)
         g = aa.Grid2D.from_mask(mask=mk)
-        c = (o[0] + cy, o[1] + cx)
+        c = o if (cy == 0 and cx == 0) else (o[0] + cy, o[1] + cx)      # a centre AT the origin is handed over as the origin itself (same type)
         return [_safe("grid_2d_radial_projected_from", "coord",
                       lambda: g.grid_2d_radial_projected_from(centre=c, angle=angle, remove_projected_centre=remove_centre)),
                 _safe("grid_2d_radial_projected_shape_slim_from", "same", lambda: g.grid_2d_radial_projected_shape_slim_from(centre=c)),
